@@ -922,6 +922,15 @@ var blockRules = map[BlockKind]blockRule{
 		},
 		onClose: func(source []byte, block *Block) []*Block {
 			// "Blank lines preceding or following an indented code block are not included in it."
+			// The synthetic line break added at the end of input belongs to the last line:
+			// if that line is blank, the line break goes away with it.
+			if n := len(block.inlineChildren); n >= 2 &&
+				block.inlineChildren[n-1].Kind() == SoftLineBreakKind && block.inlineChildren[n-1].Span().Len() == 0 {
+				if prev := block.inlineChildren[n-2]; prev.Kind() == TextKind && isBlankLine(spanSlice(source, prev.Span())) {
+					block.inlineChildren[n-1] = nil // free for GC
+					block.inlineChildren = block.inlineChildren[: n-1 : n-1]
+				}
+			}
 			for i := block.ChildCount() - 1; i >= 0; i-- {
 				child := block.inlineChildren[i]
 				if child.Kind() != TextKind || !isBlankLine(spanSlice(source, child.Span())) {
